@@ -88,30 +88,6 @@ inductive CAType where
   | chainedRightLeftLeft | chainedLeftLeftRight | chainedRightDeep
   deriving DecidableEq, Repr, Inhabited
 
-def caType (n : Ex) : Option (CAType × Rat × Rat) :=
-  match n with
-  | .un _ .neg (.bin _ o (.const _ a) (.const _ b)) =>
-      if o == .eq then none else some (.negationSimple, a, b)
-  | .un .. => none
-  | .bin _ o (.const _ a) (.const _ b) =>
-      if o == .eq then none else some (.simple, a, b)
-  | .bin _ .mul (.bin _ .mul (.const _ a) (.var ..)) (.const _ b) => some (.simpleVarMult, a, b)
-  | .bin _ o (.const _ a) (.bin _ o1 (.bin _ o2 (.const _ b) _) _) =>
-      if (o == .add && o1 == .add && o2 == .add) || (o == .mul && o1 == .mul && o2 == .mul)
-      then some (.chainedRightDeep, a, b) else none
-  | .bin _ o (.const _ a) (.bin _ o1 (.const _ b) _) =>
-      if (o == .add && o1 == .add) || (o == .mul && o1 == .mul)
-      then some (.chainedRight, a, b) else none
-  | .bin _ .mul (.bin _ .mul (.const _ a) _) (.bin _ .mul (.const _ b) _) =>
-      some (.chainedRightLeft, a, b)
-  | .bin _ .mul (.bin _ .mul (.const _ a) _) (.bin _ .mul (.bin _ .mul (.const _ b) _) _) =>
-      some (.chainedRightLeftLeft, a, b)
-  | .bin _ .mul (.bin _ .mul _ (.bin _ .mul (.const _ a) _)) (.bin _ .mul (.const _ b) _) =>
-      some (.chainedLeftLeftRight, a, b)
-  | _ => none
-
-def caCan (n : Ex) : Bool := (caType n).isSome
-
 /-- `ConstantExpression(node.evaluate())` -/
 def foldConst (r : Res) (integralExp : Bool) : Except RErr Ex :=
   match r with
@@ -121,32 +97,46 @@ def foldConst (r : Res) (integralExp : Bool) : Except RErr Ex :=
 /-- whether folding `a o b` stays inside the rational domain (only `^` can leave it) -/
 def inDomain (o : Bop) (b : Rat) : Bool := !(o == .pow) || b.den == 1
 
+/-- `get_type` and the matching arm of `apply_to` in one pass: the arrangement and the
+replacement for the node.  The case order is that of the Python `get_type`. -/
+def caStep (n : Ex) : Option (CAType × Except RErr Ex) :=
+  match n with
+  | .un _ .neg (.bin _ o (.const _ a) (.const _ b)) =>
+      if o == .eq then none
+      else some (.negationSimple, foldConst (Res.un .neg (evalBop o a b)) (inDomain o b))
+  | .un .. => none
+  | .bin _ o (.const _ a) (.const _ b) =>
+      if o == .eq then none else some (.simple, foldConst (evalBop o a b) (inDomain o b))
+  | .bin _ .mul (.bin _ .mul (.const _ a) x@(.var ..)) (.const _ b) =>
+      some (.simpleVarMult, .ok (.bin 0 .mul (.const 0 (a * b)) x))
+  | .bin _ o (.const _ a) (.bin _ o1 (.bin _ o2 (.const _ b) rlr) rr) =>
+      if o == .add && o1 == .add && o2 == .add then
+        some (.chainedRightDeep, .ok (.bin 0 .add (.bin 0 .add (.const 0 (a + b)) rlr) rr))
+      else if o == .mul && o1 == .mul && o2 == .mul then
+        some (.chainedRightDeep, .ok (.bin 0 .mul (.bin 0 .mul (.const 0 (a * b)) rlr) rr))
+      else none
+  | .bin _ o (.const _ a) (.bin _ o1 (.const _ b) rr) =>
+      if o == .add && o1 == .add then some (.chainedRight, .ok (.bin 0 .add (.const 0 (a + b)) rr))
+      else if o == .mul && o1 == .mul then some (.chainedRight, .ok (.bin 0 .mul (.const 0 (a * b)) rr))
+      else none
+  | .bin _ .mul (.bin _ .mul (.const _ a) lr) (.bin _ .mul (.const _ b) rr) =>
+      some (.chainedRightLeft, .ok (.bin 0 .mul (.bin 0 .mul (.const 0 (a * b)) lr) rr))
+  | .bin _ .mul (.bin _ .mul (.const _ a) lr) (.bin _ .mul (.bin _ .mul (.const _ b) rlr) rr) =>
+      some (.chainedRightLeftLeft, .ok (.bin 0 .mul (.bin 0 .mul (.const 0 (a * b)) lr) (.bin 0 .mul rlr rr)))
+  | .bin _ .mul (.bin _ .mul ll (.bin _ .mul (.const _ a) lrr)) (.bin _ .mul (.const _ b) rr) =>
+      some (.chainedLeftLeftRight,
+        .ok (.bin 0 .mul ll (.bin 0 .mul (.bin 0 .mul (.const 0 (a * b)) lrr) rr)))
+  | _ => none
+
+def caType (n : Ex) : Option CAType := (caStep n).map (·.1)
+
+def caCan (n : Ex) : Bool := (caStep n).isSome
+
 def caApply (k : Ctx) (n : Ex) : Except RErr (Ctx × Ex) :=
-  match caType n with
+  match caStep n with
   | none => .error .notApplicable
-  | some (ty, a, b) =>
-    match ty, n with
-    | .simple, .bin _ o _ _ => do
-        let c ← foldConst (evalBop o a b) (inDomain o b)
-        .ok (k, c)
-    | .negationSimple, .un _ .neg (.bin _ o _ _) => do
-        let c ← foldConst (match evalBop o a b with | .ok v => .ok (-v) | .error e => .error e) (inDomain o b)
-        .ok (k, c)
-    | .simpleVarMult, .bin _ .mul (.bin _ .mul _ x) _ =>
-        .ok (k, .bin 0 .mul (.const 0 (a * b)) x)
-    | .chainedLeftLeftRight, .bin _ .mul (.bin _ .mul ll (.bin _ .mul _ lrr)) (.bin _ .mul _ rr) =>
-        .ok (k, .bin 0 .mul ll (.bin 0 .mul (.bin 0 .mul (.const 0 (a * b)) lrr) rr))
-    | .chainedRightLeft, .bin _ .mul (.bin _ .mul _ lr) (.bin _ .mul _ rr) =>
-        .ok (k, .bin 0 .mul (.bin 0 .mul (.const 0 (a * b)) lr) rr)
-    | .chainedRightLeftLeft, .bin _ .mul (.bin _ .mul _ lr) (.bin _ .mul (.bin _ .mul _ rlr) rr) =>
-        .ok (k, .bin 0 .mul (.bin 0 .mul (.const 0 (a * b)) lr) (.bin 0 .mul rlr rr))
-    | .chainedRight, .bin _ o _ (.bin _ _ _ rr) =>
-        if o == .add then .ok (k, .bin 0 .add (.const 0 (a + b)) rr)
-        else .ok (k, .bin 0 .mul (.const 0 (a * b)) rr)
-    | .chainedRightDeep, .bin _ o _ (.bin _ _ (.bin _ _ _ rlr) rr) =>
-        if o == .add then .ok (k, .bin 0 .add (.bin 0 .add (.const 0 (a + b)) rlr) rr)
-        else .ok (k, .bin 0 .mul (.bin 0 .mul (.const 0 (a * b)) rlr) rr)
-    | _, _ => .error .internal
+  | some (_, .ok n') => .ok (k, n')
+  | some (_, .error e) => .error e
 
 /-! ### Distributive factor out -/
 
@@ -154,86 +144,95 @@ inductive DFType where
   | simple | chainedBoth | chainedLeft | chainedLeftRight | chainedRightLeft | chainedRight
   deriving DecidableEq, Repr, Inhabited
 
-def hasVar (t : Option TermEx) : Bool :=
-  match t with
-  | some t => t.var.isSome
-  | none => false
+/-- the second field of a chained arrangement must be a term with a variable -/
+def termWithVar (e : Ex) : Option TermEx :=
+  match getTermEx false e with
+  | some t => if t.var.isNone then none else some t
+  | none => none
 
-def dfType (n : Ex) : Option (DFType × TermEx × TermEx) :=
+/-- `get_type`: arrangement, the two term nodes with their `TermEx`, and the way `apply_to`
+re-attaches the kept children around the factored product (`wrap core`). -/
+def dfStep (n : Ex) : Option (DFType × (Ex × TermEx) × (Ex × TermEx) × (Ex → Ex)) :=
   match n with
   | .bin _ .add l r =>
-    let lt := getTermEx false l
-    let rt := getTermEx false r
-    match lt, rt with
+    match getTermEx false l, getTermEx false r with
     | none, none =>
-      let rt' := match r with | .bin _ .add rl _ => getTermEx false rl | _ => none
-      match rt' with
-      | some rt' =>
-        if rt'.var.isNone then none else
-        let lt' := match l with | .bin _ .add _ lr => getTermEx false lr | _ => none
-        match lt' with
-        | some lt' => if lt'.var.isNone then none else some (.chainedBoth, lt', rt')
+      match l, r with
+      | .bin _ .add ll lr, .bin _ .add rl rr =>
+        match termWithVar rl with
         | none => none
-      | none => none
-    | some lt, some rt => some (.simple, lt, rt)
+        | some rt =>
+          match termWithVar lr with
+          | none => none
+          | some lt => some (.chainedBoth, (lr, lt), (rl, rt),
+              fun core => .bin 0 .add (.bin 0 .add ll core) rr)
+      | _, _ => none
+    | some lt, some rt => some (.simple, (l, lt), (r, rt), fun core => core)
     | some lt, none =>
-      let rt' := match r with | .bin _ .add rl _ => getTermEx false rl | _ => none
-      match rt' with
-      | some rt' => if rt'.var.isNone then none else some (.chainedRight, lt, rt')
-      | none =>
-        let rt'' := match r with
-          | .bin _ .add (.bin _ .add rll _) _ => getTermEx false rll
+      match r with
+      | .bin _ .add rl rr =>
+        match getTermEx false rl with
+        | some rt => if rt.var.isNone then none
+            else some (.chainedRight, (l, lt), (rl, rt), fun core => .bin 0 .add core rr)
+        | none =>
+          match rl with
+          | .bin _ .add rll rlr =>
+            match termWithVar rll with
+            | some rt => some (.chainedRightLeft, (l, lt), (rll, rt),
+                fun core => .bin 0 .add core (.bin 0 .add rlr rr))
+            | none => none
           | _ => none
-        match rt'' with
-        | some rt'' => if rt''.var.isNone then none else some (.chainedRightLeft, lt, rt'')
-        | none => none
+      | _ => none
     | none, some rt =>
-      let lt' := match l with | .bin _ .add _ lr => getTermEx false lr | _ => none
-      match lt' with
-      | some lt' => if lt'.var.isNone then none else some (.chainedLeft, lt', rt)
-      | none =>
-        let lt'' := match l with
-          | .bin _ .add _ (.bin _ .add _ lrr) => getTermEx false lrr
+      match l with
+      | .bin _ .add ll lr =>
+        match getTermEx false lr with
+        | some lt => if lt.var.isNone then none
+            else some (.chainedLeft, (lr, lt), (r, rt), fun core => .bin 0 .add ll core)
+        | none =>
+          match lr with
+          | .bin _ .add lrl lrr =>
+            match termWithVar lrr with
+            | some lt => some (.chainedLeftRight, (lrr, lt), (r, rt),
+                fun core => .bin 0 .add (.bin 0 .add ll lrl) core)
+            | none => none
           | _ => none
-        match lt'' with
-        | some lt'' => if lt''.var.isNone then none else some (.chainedLeftRight, lt'', rt)
-        | none => none
+      | _ => none
   | _ => none
 
+def dfType (n : Ex) : Option DFType := (dfStep n).map (·.1)
+
+/-- the test `can_apply_to` adds on top of `get_type` -/
+def dfFactorOk (constants : Bool) (lt rt : TermEx) : Bool :=
+  if constants = false && lt.var.isNone && rt.var.isNone then false
+  else match factorAddTermsEx lt rt with
+    | none => false
+    | some f =>
+      !(f.best == 1 && f.comVar.isNone && (f.comExp.isNone || f.comExp == some 0))
+
 def dfCan (constants : Bool) (n : Ex) : Bool :=
-  match dfType n with
+  match dfStep n with
   | none => false
-  | some (_, lt, rt) =>
-    if constants = false && lt.var.isNone && rt.var.isNone then false
-    else match factorAddTermsEx lt rt with
-      | none => false
-      | some f =>
-        !(f.best == 1 && f.comVar.isNone && (f.comExp.isNone || f.comExp == some 0))
+  | some (_, (_, lt), (_, rt), _) => dfFactorOk constants lt rt
+
+/-- `(b + c) * a` built by `make_term` from the factor result -/
+def dfCore (lt rt : TermEx) : Option Ex :=
+  match factorAddTermsEx lt rt with
+  | none => none
+  | some f =>
+    match makeTerm f.best f.comVar f.comExp,
+          makeTerm f.left f.leftVar f.leftExp,
+          makeTerm f.right f.rightVar f.rightExp with
+    | some a, some b, some c => some (.bin 0 .mul (.bin 0 .add b c) a)
+    | _, _, _ => none
 
 def dfApply (k : Ctx) (n : Ex) : Except RErr (Ctx × Ex) :=
-  match dfType n with
+  match dfStep n with
   | none => .error .notApplicable
-  | some (pos, lt, rt) =>
-    match factorAddTermsEx lt rt with
+  | some (_, (_, lt), (_, rt), wrap) =>
+    match dfCore lt rt with
+    | some core => .ok (k, wrap core)
     | none => .error .internal
-    | some f =>
-      match makeTerm f.best f.comVar f.comExp,
-            makeTerm f.left f.leftVar f.leftExp,
-            makeTerm f.right f.rightVar f.rightExp with
-      | some a, some b, some c =>
-        let core : Ex := .bin 0 .mul (.bin 0 .add b c) a
-        match pos, n with
-        | .simple, _ => .ok (k, core)
-        | .chainedLeft, .bin _ _ (.bin _ _ ll _) _ => .ok (k, .bin 0 .add ll core)
-        | .chainedBoth, .bin _ _ (.bin _ _ ll _) (.bin _ _ _ rr) =>
-            .ok (k, .bin 0 .add (.bin 0 .add ll core) rr)
-        | .chainedLeftRight, .bin _ _ (.bin _ _ ll (.bin _ _ lrl _)) _ =>
-            .ok (k, .bin 0 .add (.bin 0 .add ll lrl) core)
-        | .chainedRightLeft, .bin _ _ _ (.bin _ _ (.bin _ _ _ rlr) rr) =>
-            .ok (k, .bin 0 .add core (.bin 0 .add rlr rr))
-        | .chainedRight, .bin _ _ _ (.bin _ _ _ rr) => .ok (k, .bin 0 .add core rr)
-        | _, _ => .error .internal
-      | _, _, _ => .error .internal
 
 /-! ### Distributive multiply across -/
 
@@ -249,15 +248,17 @@ def dmAVar (a : Ex) : Bool :=
     || (match a.left? with | some l => l.isVar | none => false)
   aExpVar || a.isVar
 
+/-- the sum `apply_to` builds from clones of `a`, `b`, `c` -/
+def dmBuild (a b c : Ex) : Ex :=
+  let av := dmAVar a
+  let ab : Ex := if av && b.isConst then .bin 0 .mul b.clone a.clone else .bin 0 .mul a.clone b.clone
+  let ac : Ex := if av && c.isConst then .bin 0 .mul c.clone a.clone else .bin 0 .mul a.clone c.clone
+  .bin 0 .add ab ac
+
 def dmApply (k : Ctx) (n : Ex) : Except RErr (Ctx × Ex) :=
-  let build (a b c : Ex) : Except RErr (Ctx × Ex) :=
-    let av := dmAVar a
-    let ab : Ex := if av && b.isConst then .bin 0 .mul b.clone a.clone else .bin 0 .mul a.clone b.clone
-    let ac : Ex := if av && c.isConst then .bin 0 .mul c.clone a.clone else .bin 0 .mul a.clone c.clone
-    .ok (k, .bin 0 .add ab ac)
   match n with
-  | .bin _ .mul (.bin _ .add b c) a => build a b c
-  | .bin _ .mul a (.bin _ .add b c) => build a b c
+  | .bin _ .mul (.bin _ .add b c) a => .ok (k, dmBuild a b c)
+  | .bin _ .mul a (.bin _ .add b c) => .ok (k, dmBuild a b c)
   | _ => .error .notApplicable
 
 /-! ### Multiplicative inverse -/
@@ -279,44 +280,43 @@ inductive RSType where
   | addNegConst | addNegConstVar | addNegConstVarExp
   deriving DecidableEq, Repr, Inhabited
 
-def rsType (k : Ctx) (n : Ex) : Option RSType :=
+/-- the parent test of the subtraction arrangements -/
+def rsParentOk (k : Ctx) : Bool := k.isEmpty || parentIs .eq k || parentIs .add k
+
+/-- `get_type` and the matching arm of `apply_to` -/
+def rsStep (k : Ctx) (n : Ex) : Option (RSType × Ex) :=
   match n with
-  | .bin _ .sub _ r =>
-    if k.isEmpty || parentIs .eq k || parentIs .add k then
+  | .bin _ .sub l r =>
+    if rsParentOk k then
       match r with
-      | .un _ .neg (.var ..) => some .subNegateVariable
-      | .const _ v => if v < 0 then some .subNegativeConst else some .subtraction
-      | .bin _ .mul (.const ..) _ => some .subTermWithConst
-      | _ => some .subtraction
+      | .un _ .neg c@(.var ..) => some (.subNegateVariable, .bin 0 .add l c.clone)
+      | .const _ v =>
+          if v < 0 then some (.subNegativeConst, .bin 0 .add l (.const 0 (v * -1)))
+          else some (.subtraction, .bin 0 .add l (.un 0 .neg r))
+      | .bin _ .mul (.const _ v) rr =>
+          some (.subTermWithConst, .bin 0 .add l (.bin 0 .mul (.const 0 (v * -1)) rr.clone))
+      | _ => some (.subtraction, .bin 0 .add l (.un 0 .neg r))
     else none
-  | .bin _ .add _ r =>
+  | .bin _ .add l r =>
     match r with
-    | .const _ v => if v < 0 then some .addNegConst else none
-    | .bin _ .mul (.const _ v) (.var ..) => if v < 0 then some .addNegConstVar else none
-    | .bin _ .mul (.const _ v) (.bin _ .pow _ _) => if v < 0 then some .addNegConstVarExp else none
+    | .const _ v => if v < 0 then some (.addNegConst, .bin 0 .sub l (.const 0 (-v))) else none
+    | .bin _ .mul (.const _ v) rr@(.var ..) =>
+        if v < 0 then some (.addNegConstVar, .bin 0 .sub l (.bin 0 .mul (.const 0 (-v)) rr.clone))
+        else none
+    | .bin _ .mul (.const _ v) rr@(.bin _ .pow _ _) =>
+        if v < 0 then some (.addNegConstVarExp, .bin 0 .sub l (.bin 0 .mul (.const 0 (-v)) rr.clone))
+        else none
     | _ => none
   | _ => none
 
-def rsCan (k : Ctx) (n : Ex) : Bool := (rsType k n).isSome
+def rsType (k : Ctx) (n : Ex) : Option RSType := (rsStep k n).map (·.1)
+
+def rsCan (k : Ctx) (n : Ex) : Bool := (rsStep k n).isSome
 
 def rsApply (k : Ctx) (n : Ex) : Except RErr (Ctx × Ex) :=
-  match rsType k n, n with
-  | some .subTermWithConst, .bin _ _ l (.bin _ .mul (.const _ v) rr) =>
-      .ok (k, .bin 0 .add l (.bin 0 .mul (.const 0 (v * -1)) rr.clone))
-  | some .subNegativeConst, .bin _ _ l (.const _ v) =>
-      .ok (k, .bin 0 .add l (.const 0 (v * -1)))
-  | some .subNegateVariable, .bin _ _ l (.un _ .neg c) =>
-      .ok (k, .bin 0 .add l c.clone)
-  | some .subtraction, .bin _ _ l r =>
-      .ok (k, .bin 0 .add l (.un 0 .neg r))
-  | some .addNegConst, .bin _ _ l (.const _ v) =>
-      .ok (k, .bin 0 .sub l (.const 0 (-v)))
-  | some .addNegConstVar, .bin _ _ l (.bin _ .mul (.const _ v) rr) =>
-      .ok (k, .bin 0 .sub l (.bin 0 .mul (.const 0 (-v)) rr.clone))
-  | some .addNegConstVarExp, .bin _ _ l (.bin _ .mul (.const _ v) rr) =>
-      .ok (k, .bin 0 .sub l (.bin 0 .mul (.const 0 (-v)) rr.clone))
-  | none, _ => .error .notApplicable
-  | _, _ => .error .internal
+  match rsStep k n with
+  | some (_, n') => .ok (k, n')
+  | none => .error .notApplicable
 
 /-! ### Variable multiply -/
 
@@ -324,16 +324,42 @@ inductive VMType where
   | simple | chained | chainedLeftRight
   deriving DecidableEq, Repr, Inhabited
 
-def vmType (n : Ex) : Option (VMType × TermEx × TermEx) :=
+/-- result of the simple arrangement: `(a * b) * x^(..)`, `a * x^(..)` or `x^(..)` -/
+def vmWrapSimple (coefs : List Rat) (power : Ex) : Ex :=
+  match coefs with
+  | [a, b] => .bin 0 .mul (.bin 0 .mul (.const 0 a) (.const 0 b)) power
+  | [a] => .bin 0 .mul (.const 0 a) power
+  | _ => power
+
+/-- result of the chained arrangement `t * (t' * keep)` -/
+def vmWrapChained (keep : Ex) (coefs : List Rat) (power : Ex) : Ex :=
+  let res : Ex := .bin 0 .mul power keep
+  match coefs with
+  | [a, b] => .bin 0 .mul (.const 0 a) (.bin 0 .mul (.const 0 b) res)
+  | [a] => .bin 0 .mul (.const 0 a) res
+  | _ => res
+
+/-- result of the chained-left-right arrangement `(keep * t) * t'` -/
+def vmWrapCLR (keep : Ex) (coefs : List Rat) (power : Ex) : Ex :=
+  match coefs with
+  | [a, b] => .bin 0 .mul keep (.bin 0 .mul (.const 0 b) (.bin 0 .mul (.const 0 a) power))
+  | [a] => .bin 0 .mul keep (.bin 0 .mul (.const 0 a) power)
+  | _ => .bin 0 .mul keep power
+
+/-- `get_type`: arrangement, the two term nodes with their `TermEx`, and how `apply_to`
+re-attaches the kept child around the combined power (`wrap coefficients power`). -/
+def vmStep (n : Ex) : Option (VMType × (Ex × TermEx) × (Ex × TermEx) × (List Rat → Ex → Ex)) :=
   match n with
   | .bin _ .mul l r =>
     let lt := getTermEx false l
     let rt := getTermEx false r
-    let clr : Option (VMType × TermEx × TermEx) :=
+    let clr : Option (VMType × (Ex × TermEx) × (Ex × TermEx) × (List Rat → Ex → Ex)) :=
       match l, r with
-      | .bin _ .mul _ lr, .bin _ .mul _ _ =>
+      | .bin _ .mul keep lr, .bin _ .mul _ _ =>
         match getTermEx false lr, rt with
-        | some clt, some rt => if clt.var == rt.var then some (.chainedLeftRight, clt, rt) else none
+        | some clt, some rt =>
+          if clt.var == rt.var then some (.chainedLeftRight, (lr, clt), (r, rt), vmWrapCLR keep)
+          else none
         | _, _ => none
       | _, _ => none
     match clr with
@@ -343,52 +369,45 @@ def vmType (n : Ex) : Option (VMType × TermEx × TermEx) :=
       | none => none
       | some lt =>
         if lt.var.isNone then none else
-        let chained := rt.isNone && r.isOp .mul
-        let rt' := if chained then (match r with | .bin _ .mul rl _ => getTermEx false rl | _ => none) else rt
-        match rt' with
-        | none => none
-        | some rt' =>
-          if rt'.var.isNone then none
-          else if lt.var != rt'.var then none
-          else if chained then some (.chained, lt, rt') else some (.simple, lt, rt')
+        match rt with
+        | some rt =>
+          if rt.var.isNone then none
+          else if lt.var != rt.var then none
+          else some (.simple, (l, lt), (r, rt), vmWrapSimple)
+        | none =>
+          match r with
+          | .bin _ .mul rl keep =>
+            match getTermEx false rl with
+            | none => none
+            | some rt =>
+              if rt.var.isNone then none
+              else if lt.var != rt.var then none
+              else some (.chained, (l, lt), (rl, rt), vmWrapChained keep)
+          | _ => none
   | _ => none
 
-def vmCan (n : Ex) : Bool := (vmType n).isSome
+def vmType (n : Ex) : Option VMType := (vmStep n).map (·.1)
+
+def vmCan (n : Ex) : Bool := (vmStep n).isSome
+
+/-- the coefficient term of `apply_to`: none / one constant / a product of two constants -/
+def vmCoefs (lt rt : TermEx) : List Rat :=
+  match lt.coef, rt.coef with
+  | none, none => []
+  | some a, some b => [a, b]
+  | some a, none => [a]
+  | none, some b => [b]
 
 def vmApply (k : Ctx) (n : Ex) : Except RErr (Ctx × Ex) :=
-  match vmType n with
+  match vmStep n with
   | none => .error .notApplicable
-  | some (pos, lt, rt) =>
+  | some (_, (_, lt), (_, rt), wrap) =>
     match lt.var with
     | none => .error .internal
     | some x =>
       let power : Ex := .bin 0 .pow (.var 0 x)
         (.bin 0 .add (.const 0 (lt.exp.getD 1)) (.const 0 (rt.exp.getD 1)))
-      -- the coefficient term: none / one constant / a product of two constants
-      let coefs : List Rat :=
-        match lt.coef, rt.coef with
-        | none, none => []
-        | some a, some b => [a, b]
-        | some a, none => [a]
-        | none, some b => [b]
-      match pos, n with
-      | .chained, .bin _ _ _ (.bin _ _ _ keep) =>
-        let res : Ex := .bin 0 .mul power keep
-        match coefs with
-        | [a, b] => .ok (k, .bin 0 .mul (.const 0 a) (.bin 0 .mul (.const 0 b) res))
-        | [a] => .ok (k, .bin 0 .mul (.const 0 a) res)
-        | _ => .ok (k, res)
-      | .chainedLeftRight, .bin _ _ (.bin _ _ keep _) _ =>
-        match coefs with
-        | [a, b] => .ok (k, .bin 0 .mul keep (.bin 0 .mul (.const 0 b) (.bin 0 .mul (.const 0 a) power)))
-        | [a] => .ok (k, .bin 0 .mul keep (.bin 0 .mul (.const 0 a) power))
-        | _ => .ok (k, .bin 0 .mul keep power)
-      | .simple, _ =>
-        match coefs with
-        | [a, b] => .ok (k, .bin 0 .mul (.bin 0 .mul (.const 0 a) (.const 0 b)) power)
-        | [a] => .ok (k, .bin 0 .mul (.const 0 a) power)
-        | _ => .ok (k, power)
-      | _, _ => .error .internal
+      .ok (k, wrap (vmCoefs lt rt) power)
 
 /-! ### Balanced move -/
 
